@@ -451,9 +451,47 @@ func namedResults(n int) {
 	hook.Ev("named", n, x, y, p, q, a, b, c)
 }
 
+// addresses of parameters and of a value receiver held in value slots (string, struct,
+// slice, map) escape through results; later calls reuse the frame.
+func addrOfParams(s string, c counter, sl []int) (*string, *counter, *[]int) {
+	s += "!"
+	c.n *= 2
+	return &s, &c, &sl
+}
+
+func (c counter) Self() *counter {
+	return &c
+}
+
+var gstrs []*string
+var gcnts []*counter
+var gsls []*[]int
+
+func paramAddrs(n int) {
+	for i := 0; i < 1+n%3; i++ {
+		ps, pc, psl := addrOfParams(string(rune('a'+(n+i)%26)), counter{n*10 + i}, []int{n, i})
+		gstrs = append(gstrs, ps)
+		gcnts = append(gcnts, pc, counter{n + i + 100}.Self())
+		gsls = append(gsls, psl)
+	}
+	out := ""
+	for _, p := range gstrs {
+		out += *p
+	}
+	t := 0
+	for _, p := range gcnts {
+		t = t*3 + p.n
+	}
+	for _, p := range gsls {
+		t += (*p)[0]*7 + (*p)[1]
+	}
+	hook.Ev("param-addrs", n, out, t%1000003)
+}
+
 func Main() {
 	gfuncs, gsetters, gptrs, gsptrs = nil, nil, nil, nil
 	gfptrs, gbptrs = nil, nil
+	gstrs, gcnts, gsls = nil, nil, nil
 	gmap = make(map[int]func(int) int)
 	ghook = func() {
 		gfuncs = append(gfuncs, func() int {
@@ -462,7 +500,9 @@ func Main() {
 	}
 	steps := 6 + hook.Choose(14)
 	for s := 0; s < steps; s++ {
-		switch hook.Choose(25) {
+		switch hook.Choose(26) {
+		case 25:
+			paramAddrs(hook.Choose(12))
 		case 24:
 			namedResults(hook.Choose(9))
 		case 23:
